@@ -220,17 +220,26 @@ func errPaths(errs *fedlab.J) (paths []string, n, unauthorized int) {
 
 // RunLine executes the operation under (mode, d) and renders the run line.
 func (c *OpCase) RunLine(mode Mode, d Decisions) (line string, an *Analysis) {
+	return c.RunLineHooks(mode, d, Hooks{})
+}
+
+// RunLineHooks: the same under the loader's other pre-fetch hooks (rate limiting, tracing).
+func (c *OpCase) RunLineHooks(mode Mode, d Decisions, h Hooks) (line string, an *Analysis) {
 	an = c.W.Analyze(c.Shadow, mode, d)
-	res, pf, ba := c.Fx.Run(c.Text, c.Op.Name, c.Vars, mode, d)
+	res, pf, ba, lim := c.Fx.RunHooks(c.Text, c.Op.Name, c.Vars, mode, d, h)
 	if os.Getenv("C14_DEBUG") != "" {
-		fmt.Printf("RUN %s mode=%s d=%s\n  response=%s\n", c.ID, mode, d.String(), res.Response)
+		fmt.Printf("RUN %s mode=%s d=%s hooks=%s\n  response=%s\n", c.ID, mode, d.String(), h.String(), res.Response)
 		for _, q := range res.Requests {
 			fmt.Printf("  req[%d] %s %s\n     vars=%s\n     -> %s\n", q.Index, q.Subgraph, q.Query, q.Variables.String(), q.Response)
 		}
 	}
 	items := []string{"c14", "run", c.ID, common.L("mode", mode.String()), common.L("optype", c.Op.Kind), common.L("d", common.QS(d.String()))}
+	// (hooks name limiter-installed limiter-calls): the limiter is on the request context only once the engine has
+	// consulted the authorizer (never, when the plan carries no protected coordinate)
+	installed, calls := lim.State()
+	items = append(items, common.L("hooks", h.String(), common.B(installed), common.I(calls)))
 	if c.Deferred {
-		frames, err := c.Fx.RunFrames(c.Text, c.Op.Name, c.Vars, mode, d)
+		frames, err := c.Fx.RunFramesHooks(c.Text, c.Op.Name, c.Vars, mode, d, h)
 		if err != nil {
 			res.Err = err
 		}
